@@ -242,6 +242,11 @@ class FunTr:
                 raise _AbortPath()
             if e.id in self.function_locals:
                 raise _PathRaises("local `%s` is unbound on this path" % e.id)
+            if e.id in self.aliases:
+                v = self.global_attr(self.aliases[e.id], e, env, B)
+                if v is None:
+                    self.bail(e, "global `%s` used as a value" % self.aliases[e.id])
+                return v
             v = self.name(e, env, B)
             if v is None:
                 self.bail(e, "name `%s` (not a parameter, a local assigned before, or a known global)" % e.id)
